@@ -102,7 +102,8 @@ pub fn run(run: &Run) {
          ZWNJ-before-through-T, ZWNJ-after, ZWNJ-after-through-T, keraia-after, geresh/gershayim-before, katakana-dot before/after, middle-dot \
          before/after, both digit rules before/after), each evaluated with all 8 rule functions at the rule position and the target rule at every \
          position 0..=len+1; (b) all strings of length <= L over {L,D,R,T,U,virama,ZWNJ,ZWJ} (L=6 quick/7 thorough) for both joiner rules at every \
-         position, all strings <= 5 over {U+06F0,U+0660,a,U+30FB,hiragana,halfwidth katakana,han} for the whole-label rules; (c) proptest labels \
+         position, all strings <= 5 over {U+06F0,U+0660,a,U+30FB,hiragana,halfwidth katakana,han} for the whole-label rules; (b2) ZWNJ between transparent \
+         runs of every length 0..=40 on both sides with 6x4 end characters, and every contextual pattern behind prefixes of 15..4097 letters of 1-4 bytes; (c) proptest labels \
          and positions (inside, outside, usize::MAX) for all 8 functions; (d) registry sweep over 0..=0x10FFFF and out-of-range values. Oracle: \
          RFC 5892 App. A over my parse of UCD 6.3.0 (ccc, Joining_Type, Script) returning the SET of allowed answers: true iff the condition holds; \
          false, or undefined only if a neighbour the rule inspects lies outside the label; NotApplicable iff the code point is not the rule's own; \
@@ -236,6 +237,84 @@ pub fn run(run: &Run) {
         }
     });
 
+    // (b2) long transparent runs around ZWNJ and contextual code points far from the start of the label
+    run.par("long_runs_and_far_offsets", true, |tid, n, l| {
+        let ends: [char; 6] = ['\u{a872}', D, '\u{627}', 'a', '\u{94d}', '\u{5bf}'];
+        let mut idx = 0usize;
+        for nb in 0..=40usize {
+            for na in 0..=40usize {
+                for (ei, left) in ends.iter().enumerate() {
+                    for right in [D, '\u{627}', 'a', '\u{a872}'] {
+                        idx += 1;
+                        if idx % n != tid {
+                            continue;
+                        }
+                        // thin the 6x4 end combinations for long runs
+                        if nb > 6 && na > 6 && (ei + nb + na) % 3 != 0 {
+                            continue;
+                        }
+                        let mut chars: Vec<char> = vec![*left];
+                        chars.extend(std::iter::repeat('\u{5bf}').take(nb));
+                        chars.push(ZWNJ);
+                        chars.extend(std::iter::repeat('\u{64e}').take(na));
+                        chars.push(right);
+                        l.cases += 1;
+                        if let Err(v) = check_label_all(&chars, &[nb + 1, nb, nb + 2, 0, chars.len() - 1], &[CtxRule::Zwnj, CtxRule::Zwj], l) {
+                            run.violate(v);
+                            return;
+                        }
+                    }
+                }
+            }
+        }
+        // every contextual pattern behind a long prefix of letters (offsets beyond 15, 255, 1000 ...)
+        let patterns: [(&[char], usize); 12] = [
+            (&['l', '\u{b7}', 'l'], 1), (&['l', '\u{b7}', 'a'], 1), (&['\u{94d}', ZWJ], 1), (&['a', ZWJ], 1), (&[D, ZWNJ, D], 1), (&['\u{375}', '\u{3b1}'], 0),
+            (&['\u{5d0}', '\u{5f3}'], 1), (&['a', '\u{5f4}'], 1), (&['\u{30fb}', '\u{3042}'], 0), (&['\u{30fb}', 'a'], 0), (&['\u{660}', '\u{6f0}'], 0), (&['\u{6f0}', 'a'], 0),
+        ];
+        for (pi, plen) in [15usize, 16, 17, 31, 32, 33, 63, 64, 65, 127, 128, 255, 256, 257, 1000, 4097].iter().enumerate() {
+            if pi % n != tid {
+                continue;
+            }
+            for unit in ['a', '\u{e9}', '\u{6f22}', '\u{10428}'] {
+                for (pat, off) in patterns {
+                    for tail in [0usize, 1, 40] {
+                        let mut chars: Vec<char> = std::iter::repeat(unit).take(*plen).collect();
+                        chars.extend_from_slice(pat);
+                        chars.extend(std::iter::repeat('z').take(tail));
+                        let label: String = chars.iter().collect();
+                        l.cases += 1;
+                        for r in ALL_RULES {
+                            if let Err(v) = check_at(r, &chars, &label, plen + off, l) {
+                                run.violate(v);
+                                return;
+                            }
+                        }
+                    }
+                }
+            }
+        }
+    });
+
+    super::pipe::stress(run, "alignment_and_runs", &["l\u{b7}l", "l\u{b7}a", "\u{94d}\u{200d}", "a\u{200d}", "\u{626}\u{200c}\u{626}", "\u{626}\u{5bf}\u{200c}\u{64e}\u{627}", "\u{375}\u{3b1}", "\u{5d0}\u{5f3}", "a\u{5f4}", "\u{30fb}\u{3042}", "\u{30fb}", "\u{660}\u{6f0}", "\u{6f0}\u{660}", "\u{6f0}x\u{660}", "\u{660}x\u{6f0}", "\u{6f0}"], &|s, l| {
+        let chars: Vec<char> = s.chars().collect();
+        // every position that holds a contextual code point, and its neighbours
+        let mut positions: Vec<usize> = Vec::new();
+        for (i, c) in chars.iter().enumerate() {
+            if ref_registry(*c as u32).is_some() {
+                positions.extend([i.saturating_sub(1), i, i + 1]);
+            }
+        }
+        positions.push(chars.len());
+        positions.dedup();
+        match check_label_all(&chars, &positions, &ALL_RULES, l) {
+            Ok(()) => true,
+            Err(v) => {
+                run.violate(v);
+                false
+            }
+        }
+    });
     // (c) random labels and positions, all 8 functions
     let mk = || {
         let ch = prop_oneof![45 => gens::pick(&pools().ctx), 15 => gens::pick_classed(&pools().by_jt), 10 => gens::pick(&pools().virama), 20 => gens::pick(&pools().general), 10 => gens::gchar()];
